@@ -10,6 +10,9 @@ CHECKS = {
  "C09": ("runtime monitor: panic/recover + process-survival + result-xor-error oracle over hostile inputs; second pass under the Go race detector (checkptr)",
          "exploration: every inbound entry point and the decryption routines are driven with a ciphertext matrix reachable without IdP keys, systematic truncations, mutations of genuine and captured messages and hostile tree shapes under 8 SP configurations; each call runs under recover in a worker process whose death is attributed to the logged case",
          "a watchdog firing is inconclusive; inputs not generated are not covered", "4/C09"),
+ "C05": ("runtime monitor: reference time oracle with an injected spy clock at nanosecond offsets around each bound",
+         "exploration: signed responses whose bounds sit at -1s/-1ns/0/+1ns/+1s from the injected clock (all renderings, 1-3 assertions, missing/malformed bounds) are validated by the real library; the oracle recomputes expiry and the half-open validity window from the semantic record",
+         "wall clock is decades away from all windows; only RFC 3339 renderings Go's time.Parse accepts are used as well-formed bounds", "4/C05"),
 }
 
 NOT_BUILT = "monitor not built yet in this session (planned in DESIGN.md section 4)"
